@@ -29,7 +29,7 @@
 //!
 //! See: `/specs/001-adt-binrw-refactor/CROSS_REFERENCE_MCNK.md` for full analysis
 
-use crate::chunk_header::ChunkHeader;
+use crate::chunk_header::{ChunkHeader, read_chunk_data};
 use crate::chunk_id::ChunkId;
 use binrw::{BinRead, BinResult};
 use std::io::{Read, Seek, SeekFrom};
@@ -379,8 +379,7 @@ impl McnkChunk {
             // Read the actual data using size_liquid from MCNK header.
             // size_liquid counts the 8-byte MCLQ chunk header as well (it is 8 for
             // "no liquid"), so the data is 8 bytes shorter.
-            let mut data = vec![0u8; header.size_liquid.saturating_sub(8) as usize];
-            reader.read_exact(&mut data)?;
+            let data = read_chunk_data(reader, header.size_liquid.saturating_sub(8))?;
 
             if !data.is_empty() {
                 // Pass MCNK flags to MCLQ parser for liquid type detection
@@ -527,8 +526,7 @@ fn read_subchunk<R: Read + Seek>(
     })?;
 
     // Read subchunk data
-    let mut data = vec![0u8; subchunk_header.size as usize];
-    reader.read_exact(&mut data)?;
+    let data = read_chunk_data(reader, subchunk_header.size)?;
 
     Ok(data)
 }
@@ -554,8 +552,7 @@ fn read_subchunk_with_id<R: Read + Seek>(
         return Ok(Vec::new());
     }
 
-    let mut data = vec![0u8; subchunk_header.size as usize];
-    reader.read_exact(&mut data)?;
+    let data = read_chunk_data(reader, subchunk_header.size)?;
     Ok(data)
 }
 
@@ -623,8 +620,7 @@ fn read_subchunk_with_size<R: Read + Seek>(
     }
 
     // Read subchunk data using the expected size
-    let mut data = vec![0u8; expected_size as usize];
-    reader.read_exact(&mut data)?;
+    let data = read_chunk_data(reader, expected_size)?;
 
     Ok(data)
 }
@@ -664,9 +660,7 @@ fn scan_for_subchunk<R: Read + Seek>(
 
         if subchunk_header.id == target_id {
             // Found it! Read the data
-            let mut data = vec![0u8; subchunk_header.size as usize];
-            reader.read_exact(&mut data)?;
-            return Ok(data);
+            return Ok(read_chunk_data(reader, subchunk_header.size)?);
         }
 
         // Move to next potential chunk (header + data)
